@@ -210,12 +210,65 @@ fn apply_inner<V: VirtualFileSystem>(v: &V, op: &Op) -> Out {
         Symlink(l, t) => r_path(v.symlink(l, t)),
         Readlink(p) => r_path(v.readlink(p)),
         ReadlinkAbs(p) => r_path(v.readlink_abs(p)),
+        HOpen(..) | HWrite(..) | HFlush(..) | HDrop(..) => Out::Bool(false), // need a handle table: apply_h
     }
 }
 
 /// Execute one call, panics become Out::Panic
 pub fn apply<V: VirtualFileSystem>(v: &V, op: &Op) -> Out {
     match catch(|| apply_inner(v, op)) {
+        Ok(o) => o,
+        Err(m) => Out::Panic(m),
+    }
+}
+
+/// Open write/append handles that live across steps of a history
+#[derive(Default)]
+pub struct Handles {
+    pub slots: [Option<Box<dyn Write>>; 4],
+}
+
+impl Handles {
+    pub fn open_count(&self) -> usize {
+        self.slots.iter().filter(|s| s.is_some()).count()
+    }
+}
+
+/// Like `apply` but also understands the persistent-handle ops
+pub fn apply_h<V: VirtualFileSystem>(v: &V, op: &Op, h: &mut Handles) -> Out {
+    let r = catch(std::panic::AssertUnwindSafe(|| match op {
+        Op::HOpen(slot, append, p) => {
+            let i = (*slot as usize) % 4;
+            h.slots[i] = None; // dropping a previous handle in the slot is part of the step
+            match if *append { v.append(p) } else { v.write(p) } {
+                Ok(f) => {
+                    h.slots[i] = Some(f);
+                    Out::Unit
+                },
+                Err(e) => Out::Err(errkind(&e)),
+            }
+        },
+        Op::HWrite(slot, d) => match h.slots[(*slot as usize) % 4].as_mut() {
+            Some(f) => match f.write_all(d) {
+                Ok(()) => Out::Unit,
+                Err(e) => Out::Err(format!("Io::{:?}", e.kind())),
+            },
+            None => Out::Bool(false),
+        },
+        Op::HFlush(slot) => match h.slots[(*slot as usize) % 4].as_mut() {
+            Some(f) => match f.flush() {
+                Ok(()) => Out::Unit,
+                Err(e) => Out::Err(format!("Io::{:?}", e.kind())),
+            },
+            None => Out::Bool(false),
+        },
+        Op::HDrop(slot) => {
+            h.slots[(*slot as usize) % 4] = None;
+            Out::Unit
+        },
+        other => apply_inner(v, other),
+    }));
+    match r {
         Ok(o) => o,
         Err(m) => Out::Panic(m),
     }
